@@ -332,6 +332,14 @@ def _strategy_base():
 
         def before(self):
             self._log('before')
+            if self.spec.get('indicator'):
+                # a non-sequential, recursive indicator: its value depends on how many candles the framework lets it see
+                import jesse.indicators as ta
+                try:
+                    v = float(ta.ema(self.candles, period=3))
+                except Exception as e:
+                    v = 'EXC:' + type(e).__name__
+                TRACE.append(('ind', self.symbol, now(), v, len(self.candles)))
 
         def after(self):
             decl = None
